@@ -682,12 +682,14 @@ struct ClockEngine : Engine
 		if (prop == "C02")
 			return "seeded programs of <=40 ops (arm timers at past/now/future/equal instants with or without a wait, post/defer/dispatch, "
 				"stop, restart, extra run) issued outside run(), inside the k-th handler, or between runs; each run is compared in lock-step "
-				"with a reference scheduler. distinct = distinct shape hash (sequence of handler kinds/ids/errors); non-trivial = >=3 handlers "
+				"with a reference scheduler; in some runs an earlier, finished simulation is still alive, timers are moved, and pairs of fresh timers are armed for now or the past "
+				"and waited on at once. distinct = distinct shape hash (sequence of handler kinds/ids/errors); non-trivial = >=3 handlers "
 				"ran and the clock advanced or a wait was aborted";
 		return "seeded histories of <=40 ops over 1-4 timers (expires_at/expires_after/async_wait/cancel/cancel_one/destroy, ctor variants, "
 			"equal/past/re-armed expiries) issued outside run(), inside handlers and between runs, plus every history of length <=3 (quick) / <=5 "
 			"(thorough) over a 9-symbol alphabet for 2 timers; compared op by op and completion by completion with a reference model of the "
-			"asio waitable-timer contract. distinct = distinct shape hash; non-trivial = >=3 handlers ran and time advanced or a wait was aborted";
+			"asio waitable-timer contract; timers are also moved (construction and assignment), and pairs of fresh timers armed for now or the past are waited on at once "
+			"(expiry-then-arming order). distinct = distinct shape hash; non-trivial = >=3 handlers ran and time advanced or a wait was aborted";
 	}
 	int64_t budget(std::string const&, int tier) const override { return tier ? 3000000 : 150000; }
 	std::vector<std::string> stub_components() const override
